@@ -40,6 +40,8 @@ type stageState struct {
 	steps     int
 	idleRun   int
 	lastEvent time.Duration // absolute simulated time of the last significant event
+	lastClock time.Duration // simulated time at the last step in which the clock moved
+	busyRun   int           // consecutive steps of a quiet stage during which the clock stood still
 	clockBase time.Duration // simulated time accumulated by previous incarnations
 }
 
@@ -190,6 +192,25 @@ func (w *World) runStage(st *Stage) bool {
 			continue
 		}
 		ss.idleRun = 0
+		if st.Quiet {
+			// time is fair: a system that always has something to do (e.g. a controller
+			// and the garbage collector undoing each other's work) must not keep the
+			// clock from moving, or timers such as a reflector's reconnect back-off would
+			// never fire. After 48 steps without clock movement the clock is advanced with
+			// the parked calls left waiting (a slow server).
+			if now := w.SimTime(); now != ss.lastClock {
+				ss.lastClock, ss.busyRun = now, 0
+			} else if ss.busyRun++; ss.busyRun >= 48 {
+				w.bumpStep()
+				w.Store.Step = w.step
+				w.SleepHard(300 * time.Millisecond)
+				w.settle()
+				w.checkInvariants()
+				w.Probes["clock-advanced-for-fairness"]++
+				ss.lastClock, ss.busyRun = w.SimTime(), 0
+				continue
+			}
+		}
 		if !w.StepOnce(pol) {
 			break
 		}
